@@ -228,7 +228,7 @@ FAMILIES = [
            quick=dict(nb=2, supply_kind='resources', fault_kinds=[Fault.NONE], claims=True,
                       mods=(NOMOD, INCREASE, DECREASE, SET)),
            thorough=dict(nb=3, supply_kind='resources', fault_kinds=[Fault.NONE], claims=True,
-                         mods=(NOMOD, INCREASE, SET), _max_paths=900000, _max_wall=1500),
+                         mods=(NOMOD, SET), _max_paths=900000, _max_wall=1500),
            reach=['claim-available', 'claim-unavailable', 'borrow-waits-forever'],
            bounds='borrow/claim mix with concurrent increase/decrease/set'),
     Family('two_named', fam_res,
